@@ -201,6 +201,29 @@ pub fn run(ctx: &Ctx) {
     }, |steps: &Vec<Msg>| par(steps, check_msg));
 
     ctx.exhaustive(
+        "lengths_above_size_thresholds",
+        "lengths T + 64 b + r for T in {8192, 16384, 65536, 131072, 1048576}, b = 0..=8 whole blocks (every residue of an unroll factor up to 8) and r in {0, 1, 55, 56, 63}; plus every length T-72..=T+8 for T in {8192, 16384, 65536} (buffer caps that forget the padding): bulk paths that only large inputs take",
+        || {
+            let mut v = Vec::new();
+            for t in [8192usize, 16384, 65536, 131072, 1 << 20] {
+                for b in 0..=8usize {
+                    for r in [0usize, 1, 55, 56, 63] {
+                        let len = t + 64 * b + r;
+                        v.push(Msg { len, class: 3, seed: len as u64 ^ 0x1a46 });
+                    }
+                }
+            }
+            for t in [8192usize, 16384, 65536] {
+                for len in t - 72..=t + 8 {
+                    v.push(Msg { len, class: if len % 2 == 0 { 3 } else { 0 }, seed: len as u64 ^ 0x1a47 });
+                }
+            }
+            v
+        },
+        check_msg,
+    );
+
+    ctx.exhaustive(
         "lengths_0_4096",
         "all lengths 0..=4096 x 4 content classes",
         || {
